@@ -1,6 +1,6 @@
 (* C01/Extract.v — extraction of the executable model (ExtrOcamlBasic only; Z, nat stay inductive) *)
 Require Extraction. Require ExtrOcamlBasic.
-From NV Require Import Base.Bytes C01.Model.
+From NV Require Import Base.Bytes C01.Model C01.Tables.
 Extraction Language OCaml.
 Extraction "c01_model.ml" of_C_list flatten_C flatten_F data_bytes write_image read_image read_data mgh_shape
-  layout_ok size.
+  layout_ok size scaling_needed make_array_writer writer_params write_route can_cast_table dtypes.
